@@ -3,9 +3,9 @@
    Proofs/W4KtensorLaws.v). *)
 From Coq Require Import List ZArith Arith Lia Bool Permutation.
 From PV Require Import Base.Index Base.Perm Np.NpZ Np.NpZ2 Np.NpZ3 Np.NpZ3b Np.NpZ3c Np.NpZ3d Np.NpZ3e Np.NpZ4 Np.NpZ4b
-  Proofs.NpZProofs Gen.GenUtils3b Gen.GenSptensor4 Gen.GenKtensor4 Model.Sparse Model.Repr Model.C07Ops Model.C07Req
+  Proofs.NpZProofs Gen.GenUtils Gen.GenUtils3b Gen.GenSptensor4 Gen.GenSptensor4d Gen.GenKtensor4 Model.Sparse Model.Repr Model.C07Ops Model.C07Req
   Model.C08Kruskal Model.W4Ktensor Model.W4Sptensor Proofs.W4Loops Proofs.W4Ktensor Proofs.W4KtensorLaws Proofs.W4Sptensor
-  Model.C07W5 Model.C07Gen4 Proofs.C07Req Proofs.C07W5.
+  Model.C07W5 Model.C07Gen4 Proofs.C07Req Proofs.C07W5 Np.NpZ4e Model.W4Reshape Proofs.W4Reshape Proofs.W4ReshapeModel.
 Import ListNotations.
 Local Open Scope Z_scope.
 
@@ -73,4 +73,47 @@ Proof.
   intros H. split.
   - unfold sptensor_permute_req. rewrite H. apply gen_sp_permute_bool_rejected.
   - intros V S. unfold permute_sp_req, with_order. now rewrite (bool_order_not_int x bz H).
+Qed.
+
+(* ---------------- sparse reshape: request -> generated parse_shape -> generated sptensor.reshape = the request-level specification
+   reshape_sp_req of Model/C07Req.v, on every coordinate list with stored entries and every request with explicit modes:
+   refusals (mode numbers outside 0..N-1, negative sizes, a target without modes, a changed element count) included *)
+Lemma zs_to_nat (l : vec) : existsb (fun z => z <? 0) l = false -> zs (map Z.to_nat l) = l.
+Proof.
+  induction l as [|z l IH]; [reflexivity|]. cbn [existsb map]. intros H. apply orb_false_iff in H as [Hz Hl].
+  apply Z.ltb_ge in Hz. unfold zs in *. cbn [map]. rewrite Z2Nat.id by exact Hz. f_equal. now apply IH.
+Qed.
+
+Theorem sp_reshape_req_c07 (S : sparse Z) (x : pyshp) (oldz : vec) :
+  ssubs S <> [] -> Forall (fun j => inb (sshape S) j = true) (ssubs S) -> length (svals S) = length (ssubs S) -> oldz <> [] ->
+  sptensor_reshape_req (of_Sp S) x (Some oldz) =
+    match reshape_sp_req S x oldz with Some R => Ok (of_Sp R) | None => Err end.
+Proof.
+  intros Hne Hin Hlen Hold. unfold sptensor_reshape_req, reshape_sp_req, with_shape, shape_of.
+  assert (HN : zlen (spt_shape (of_Sp S)) = Z.of_nat (length (sshape S))).
+  { unfold of_Sp. cbn [spt_shape]. unfold zlen, zs. now rewrite map_length. }
+  rewrite nats_of_cases.
+  destruct (existsb (fun z => z <? 0) oldz) eqn:Eneg.
+  { apply existsb_exists in Eneg as (k & Hk & Hk0). apply Z.ltb_lt in Hk0.
+    destruct (parse_shape x) as [nz|]; cbn [bind]; [|reflexivity].
+    apply (gen_sp_reshape_rejects_modes (of_Sp S) nz oldz k Hk). now left. }
+  rewrite (in_range_cases _ _ Eneg).
+  destruct (existsb (fun z => Z.of_nat (length (sshape S)) <=? z) oldz) eqn:Ebig; cbn [negb].
+  { apply existsb_exists in Ebig as (k & Hk & Hk0). apply Z.leb_le in Hk0.
+    destruct (parse_shape x) as [nz|]; cbn [bind]; [|reflexivity].
+    apply (gen_sp_reshape_rejects_modes (of_Sp S) nz oldz k Hk). right. now rewrite HN. }
+  destruct (parse_shape x) as [nz|]; cbn [bind]; [|reflexivity].
+  destruct nz as [|z0 nz].
+  { destruct (sptensor_reshape (of_Sp S) [] (Some oldz)) as [t|] eqn:E; [|reflexivity].
+    destruct (gen_sp_reshape_result _ _ _ _ E) as (_ & _ & _ & _ & _ & _ & Hnn & _). congruence. }
+  rewrite nats_of_cases. destruct (existsb (fun d => d <? 0) (z0 :: nz)) eqn:En.
+  { apply existsb_exists in En as (d & Hd & Hd0). apply Z.ltb_lt in Hd0.
+    apply (gen_sp_reshape_rejects_negative (of_Sp S) (z0 :: nz) (Some oldz) d Hd Hd0). }
+  rewrite <- (zs_to_nat (z0 :: nz) En) at 1. rewrite <- (zs_to_nat oldz Eneg) at 1.
+  apply gen_sp_reshape_model; auto.
+  - apply Forall_forall. intros k Hk.
+    pose proof (in_range_cases (length (sshape S)) oldz Eneg) as F. rewrite Ebig in F. cbn [negb] in F.
+    rewrite forallb_forall in F. now apply Nat.ltb_lt, F.
+  - destruct oldz; [congruence|discriminate].
+  - discriminate.
 Qed.
